@@ -222,3 +222,36 @@ def leaf_key(n):
     if isinstance(n0, Param):
         return n0.name
     return None
+
+
+def on_every_normal_path(stmt, fn_node):
+    """Is `stmt` executed on every path that leaves the function normally?  Syntactic: every enclosing `if` has its
+    other arm ending in `raise`, and no loop / try / with encloses it; statements before it in its block that can
+    return make it conditional as well."""
+    n = stmt
+    while True:
+        par = getattr(n, 'parent', None)
+        if par is None:
+            return False
+        for field in ('body', 'orelse', 'finalbody'):
+            blk = getattr(par, field, None)
+            if isinstance(blk, list) and any(x is n for x in blk):
+                idx = [i for i, x in enumerate(blk) if x is n][0]
+                for earlier in blk[:idx]:
+                    if any(isinstance(r, ast.Return) for r in ast.walk(earlier)
+                           if not isinstance(earlier, (ast.FunctionDef, ast.Lambda))):
+                        return False
+                if par is fn_node:
+                    return True
+                if isinstance(par, ast.If):
+                    other = par.orelse if field == 'body' else par.body
+                    if not other or not isinstance(other[-1], ast.Raise):
+                        return False
+                elif isinstance(par, ast.With):
+                    pass
+                else:
+                    return False
+                break
+        else:
+            return False
+        n = par
